@@ -77,6 +77,9 @@ def main():
         rc = fn(*args)
         outs = []
         for et, n, ptr in bufs:
+            if c.get("noout"):
+                libc.free(ptr)
+                continue
             if et == "d":
                 raw = (ctypes.c_ulonglong * n).from_address(ptr) if n else []
                 arr = (ctypes.c_double * n).from_address(ptr) if n else []
